@@ -398,7 +398,7 @@ impl Property for C04 {
     }
     fn families(&self, ctx: &Ctx) -> Vec<Family> {
         vec![
-            Family::new("gram-positive", ctx.tier.pick(200, 3000), |_c, rng, emit| {
+            Family::new("gram-positive", ctx.tier.pick(200, 10000), |_c, rng, emit| {
                 for _ in 0..50 {
                     let budget = [15, 40, 100, 250][rng.below(4)];
                     if !emit(json!({"kind": "gram", "seed": rng.next() >> 16, "budget": budget, "trivia": rng.below(3)})) {
@@ -419,7 +419,7 @@ impl Property for C04 {
                 }
             })
             .exhaustive(),
-            Family::new("token-edits", ctx.tier.pick(300, 4000), |_c, rng, emit| {
+            Family::new("token-edits", ctx.tier.pick(300, 20000), |_c, rng, emit| {
                 let alpha = mutation_alphabet();
                 for _ in 0..50 {
                     let budget = [8, 20, 40][rng.below(3)];
